@@ -50,7 +50,7 @@ def main():
     known = load_known()
     violations, inconclusive, spurious, known_lines = 0, 0, 0, []
     seen_known = set()
-    rdir = os.path.join(VERIF, "replays", prop)
+    rdir = os.path.join(os.environ.get("VERIF_REPLAY_DIR") or os.path.join(VERIF, "replays"), prop)
     import shutil
 
     shutil.rmtree(rdir, ignore_errors=True)
